@@ -287,8 +287,8 @@ func ghostAddOnly(idx *WorkspaceIndex, path string, fi *FileIndex) {
 //@   ensures [nonnil] w.resolved != nil && w.resolved.Files != nil && (old(w.resolved) != nil ==> w.resolved == old(w.resolved))
 //@   ensures [created] old(w.resolved) == nil ==> fresh(w.resolved) && fresh(w.resolved.Files)
 //@   ensures [C15:order_stable] old(w.resolved) != nil && journal != nil && old(cnt(w.resolved.FileOrder, len(w.resolved.FileOrder), path)) > 0 ==> w.resolved.FileOrder == old(w.resolved.FileOrder)
-//@   ensures [C15:order_others] old(w.resolved) != nil && path != w.rootJournalPath && journal != nil && old(cnt(w.resolved.FileOrder, len(w.resolved.FileOrder), path)) == 0 ==> len(w.resolved.FileOrder) == old(len(w.resolved.FileOrder)) + 1 && w.resolved.FileOrder[old(len(w.resolved.FileOrder))] == path && (forall k int :: {w.resolved.FileOrder[k]} 0 <= k && k < old(len(w.resolved.FileOrder)) ==> w.resolved.FileOrder[k] == old(w.resolved.FileOrder[k]))
-//@   ensures [C09,C12:files_order_agree] old(w.resolved) != nil ==> forall p string :: {has(w.resolved.Files, p)} {cnt(w.resolved.FileOrder, len(w.resolved.FileOrder), p)} (old(has(w.resolved.Files, p)) <==> old(cnt(w.resolved.FileOrder, len(w.resolved.FileOrder), p)) > 0) ==> (has(w.resolved.Files, p) <==> cnt(w.resolved.FileOrder, len(w.resolved.FileOrder), p) > 0)
+//@   ensures [C15,C16,C18,C20:order_others] old(w.resolved) != nil && path != w.rootJournalPath && journal != nil && old(cnt(w.resolved.FileOrder, len(w.resolved.FileOrder), path)) == 0 ==> len(w.resolved.FileOrder) == old(len(w.resolved.FileOrder)) + 1 && w.resolved.FileOrder[old(len(w.resolved.FileOrder))] == path && (forall k int :: {w.resolved.FileOrder[k]} 0 <= k && k < old(len(w.resolved.FileOrder)) ==> w.resolved.FileOrder[k] == old(w.resolved.FileOrder[k]))
+//@   ensures [C09,C12,C16,C18,C20:files_order_agree] old(w.resolved) != nil ==> forall p string :: {has(w.resolved.Files, p)} {cnt(w.resolved.FileOrder, len(w.resolved.FileOrder), p)} (old(has(w.resolved.Files, p)) <==> old(cnt(w.resolved.FileOrder, len(w.resolved.FileOrder), p)) > 0) ==> (has(w.resolved.Files, p) <==> cnt(w.resolved.FileOrder, len(w.resolved.FileOrder), p) > 0)
 //@   ensures [C09,C12:entry] path != w.rootJournalPath && journal != nil ==> has(w.resolved.Files, path) && w.resolved.Files[path] == journal
 //@   ensures [C09,C12:gone] path != w.rootJournalPath && journal == nil ==> !has(w.resolved.Files, path) && cnt(w.resolved.FileOrder, len(w.resolved.FileOrder), path) == 0
 //@   ensures [C09,C12:others] old(w.resolved) != nil ==> forall p string :: {w.resolved.Files[p]} p != path ==> w.resolved.Files[p] == old(w.resolved.Files[p]) && (has(w.resolved.Files, p) <==> old(has(w.resolved.Files, p)))
